@@ -82,6 +82,8 @@ class Contract:
     # ghost code: on_call {callee target: [stmt...]} run after each call of that callee; entry_ghost [stmt...] at entry.
     # A statement is `name = expr` (ghost assignment) or `assert expr` (call-site obligation) or `assume_hint expr`.
     self.on_call = {k: list(v) for k, v in g("on_call", {}).items()}
+    # on_assign {local name: [stmt...]}: ghost statements run right after each top-frame assignment `name = ...`
+    self.on_assign = {k: list(v) for k, v in g("on_assign", {}).items()}
     self.entry_ghost = list(g("entry_ghost", []))
     # methods of opaque references (user-supplied objects): (cls, method) -> result type (arbitrary value of it)
     self.ref_methods = dict(g("ref_methods", {}))
@@ -115,6 +117,9 @@ class Contract:
     self.ghost_ensures = [Clause(c) for c in g("ghost_ensures", [])]
     ce = g("caller_ensures", None)   # what callers may assume, when it differs from ensures + defines
     self.caller_ensures = [Clause(c) for c in ce] if ce is not None else None
+    # caller_ensures clauses are proved at every return like postconditions, unless textually an `ensures` clause or
+    # listed here (then they are ASSUMED and reported as such in the evidence)
+    self.caller_assumed = set(g("caller_assumed", []))
     self.bounded = g("bounded", None)
 
   def all_props(self):
